@@ -5,10 +5,16 @@ import os, re, json, sys, glob
 ROOT = os.path.dirname(os.path.abspath(__file__))
 summ = sys.argv[1] if len(sys.argv) > 1 else "/tmp/eval_summary.txt"
 runs = {}
-for line in open(summ):
+lines = [l for l in open(summ)]
+last_line_of = {}
+for idx, line in enumerate(lines):
+    m = re.match(r"(\S+) property=", line)
+    if m: last_line_of[m.group(1)] = idx
+for idx, line in enumerate(lines):
     m = re.match(r"(\S+) property=(\S+) only=(.*?) tier=(\S+) rc=(\d+)", line)
     if not m: continue
     name, pid, only, tier, rc = m.groups()
+    if last_line_of.get(name) != idx: continue      # /tmp/eval_<name>.log holds only the LAST run of a change; earlier runs were recorded when they were the last
     log = "/tmp/eval_%s.log" % name
     viol = []; ran = []; inconc = []
     if os.path.exists(log):
